@@ -8,28 +8,29 @@ package main
 
 import (
 	"fmt"
-	"os"
 	"math/big"
+	"os"
 	"sort"
 	"strings"
 	"time"
 
+	appparams "github.com/chain4energy/c4e-chain/app/params"
 	cfedistributor "github.com/chain4energy/c4e-chain/x/cfedistributor"
 	distrkeeper "github.com/chain4energy/c4e-chain/x/cfedistributor/keeper"
 	distrtypes "github.com/chain4energy/c4e-chain/x/cfedistributor/types"
 	mintertypes "github.com/chain4energy/c4e-chain/x/cfeminter/types"
-	appparams "github.com/chain4energy/c4e-chain/app/params"
 	"github.com/cosmos/cosmos-sdk/store/prefix"
 	sdk "github.com/cosmos/cosmos-sdk/types"
 	authtypes "github.com/cosmos/cosmos-sdk/x/auth/types"
+	vestingtypes "github.com/cosmos/cosmos-sdk/x/auth/vesting/types"
 	abci "github.com/tendermint/tendermint/abci/types"
 )
 
 // ---------------------------------------------------------------- fault-injecting bank ------
 type faultBank struct {
-	inner  distrtypes.BankKeeper
-	inject []bool // planned failures per call index
-	seen   []bool // what actually happened per call (true = failed)
+	inner       distrtypes.BankKeeper
+	inject      []bool // planned failures per call index
+	seen        []bool // what actually happened per call (true = failed)
 	sweepFailed bool
 }
 
@@ -41,6 +42,9 @@ func (f *faultBank) call(do func() error) error {
 	}
 	err := do()
 	f.seen = append(f.seen, err != nil)
+	if os.Getenv("VERIF_DEBUG") == "2" {
+		fmt.Fprintf(os.Stderr, "call %d err=%v\n", i, err != nil)
+	}
 	if err != nil && os.Getenv("VERIF_DEBUG") != "" {
 		fmt.Fprintln(os.Stderr, "natural bank failure:", err)
 	}
@@ -53,6 +57,9 @@ func (f *faultBank) GetAllBalances(ctx sdk.Context, addr sdk.AccAddress) sdk.Coi
 	return f.inner.GetAllBalances(ctx, addr)
 }
 func (f *faultBank) SendCoinsFromAccountToModule(ctx sdk.Context, a sdk.AccAddress, m string, amt sdk.Coins) error {
+	if os.Getenv("VERIF_DEBUG") == "2" {
+		fmt.Fprintf(os.Stderr, "  sweep of %s %v\n", a, amt)
+	}
 	err := f.call(func() error { return f.inner.SendCoinsFromAccountToModule(ctx, a, m, amt) })
 	if err != nil {
 		f.sweepFailed = true
@@ -60,6 +67,9 @@ func (f *faultBank) SendCoinsFromAccountToModule(ctx sdk.Context, a sdk.AccAddre
 	return err
 }
 func (f *faultBank) SendCoinsFromModuleToAccount(ctx sdk.Context, m string, a sdk.AccAddress, amt sdk.Coins) error {
+	if os.Getenv("VERIF_DEBUG") == "2" {
+		fmt.Fprintf(os.Stderr, "  payout to %s %v\n", a, amt)
+	}
 	return f.call(func() error { return f.inner.SendCoinsFromModuleToAccount(ctx, m, a, amt) })
 }
 func (f *faultBank) SendCoinsFromModuleToModule(ctx sdk.Context, m1, m2 string, amt sdk.Coins) error {
@@ -574,7 +584,7 @@ type distrOracle struct {
 	unbooked ratCoins            // coins in main not yet attributed (arrivals + MAIN destinations)
 	credited map[string]ratCoins // destination key -> cumulative exact credit (non-internal, incl. burn "BURN")
 	inflowSd map[string]ratCoins // last block: inflow per sub-distributor
-	isSource func(a dAcc) bool    // module / base account that is swept by some sub-distributor (pass-through)
+	isSource func(a dAcc) bool   // module / base account that is swept by some sub-distributor (pass-through)
 	passKey  func(a dAcc) string
 }
 
@@ -752,6 +762,46 @@ func runDistrCase(ta *TestApp, seed uint64, idx int, rep *Report, profile string
 		app.AccountKeeper.GetModuleAccount(ctx, m)
 	}
 	app.AccountKeeper.GetModuleAccount(ctx, distrtypes.DistributorMainAccount)
+	// some base-account sources are continuous vesting accounts that still lock part of their balance: the sweep of the whole
+	// balance then fails in the bank by itself (recorded like any other failed call), the source keeps everything and nothing is booked
+	if rng.Chance(30) {
+		for _, sd := range cfg.subs {
+			for _, src := range sd.sources {
+				if src.typ != distrtypes.BaseAccount || !rng.Chance(60) {
+					continue
+				}
+				addr, err := sdk.AccAddressFromBech32(src.id)
+				if err != nil || addr.Equals(mainAddr) || app.AccountKeeper.GetAccount(ctx, addr) != nil {
+					continue
+				}
+				// not for pass-through accounts: what a failed payout leaves booked for an account that is also a source is
+				// re-queued by its sub-distributor, while a successful payout would stay on the unsweepable account for ever
+				isDest := false
+				for _, o := range cfg.subs {
+					if o.primary == src {
+						isDest = true
+					}
+					for _, sh := range o.shares {
+						if sh.dest == src {
+							isDest = true
+						}
+					}
+				}
+				if isDest {
+					continue
+				}
+				lockedAmt := sdk.NewIntFromBigInt(rng.LogUniform(12))
+				ov := sdk.NewCoins(sdk.NewCoin(denomNames[0], lockedAmt))
+				bacc := authtypes.NewBaseAccountWithAddress(addr)
+				bacc.AccountNumber = app.AccountKeeper.GetNextAccountNumber(ctx)
+				now := ctx.BlockTime().Unix()
+				cva := vestingtypes.NewContinuousVestingAccount(bacc, ov, now+1000000, now+2000000) // vesting has not started: all of it is locked
+				app.AccountKeeper.SetAccount(ctx, cva)
+				fundAddr(ctx, ta, addr, ov.Add(sdk.NewCoin(denomNames[0], sdk.NewInt(rng.I64n(1000)))))
+				rep.Count("source.vesting_account_with_locked_coins")
+			}
+		}
+	}
 	// drain whatever the genesis left in the tracked accounts so that the model's world is complete
 	worldBal := func() string {
 		var bs []string
@@ -1070,6 +1120,12 @@ func runDistrCase(ta *TestApp, seed uint64, idx int, rep *Report, profile string
 		twin := execute(false, false)
 		// C14: after two fault-free blocks every destination has what it would have had without the failures (up to one unit)
 		if !twin.panicked {
+			if os.Getenv("VERIF_DEBUG") != "" {
+				for i := range e.addrTab {
+					fmt.Fprintf(os.Stderr, "final %d: main %v | twin %v\n", i, main.finalBal[i], twin.finalBal[i])
+				}
+				fmt.Fprintf(os.Stderr, "rem main %v\nrem twin %v\n", main.finalRem, twin.finalRem)
+			}
 			for i := range e.addrTab {
 				if i == 0 {
 					continue
